@@ -114,7 +114,7 @@ func checkC07(w *World, r *Recorder) propInfo {
 	ruleUnmarshalShape(w, r, "C07-P6", "UnmarshalJSON", true)
 	r.Floor("C07-P1", 1)
 	r.Floor("C07-P2", 2)
-	r.Floor("C07-P3", 3)
+	r.Floor("C07-P3", 1)
 	r.Floor("C07-P4", 2)
 	r.Floor("C07-P5", 6)
 	r.Floor("C07-P6", 4)
@@ -488,6 +488,10 @@ type jsonDispatch struct {
 	getClaims *ssa.Call
 	recv      ssa.Value
 	leaves    []jsonLeaf
+	// sel: the function in which the selection is made — the decoder itself,
+	// or a helper whose first result (on its error-free returns) is the
+	// profile GetClaims() is invoked on
+	sel *ssa.Function
 }
 
 type jsonLeaf struct {
@@ -550,6 +554,33 @@ func analyseJSONDispatch(w *World, fn *ssa.Function, reg *ssa.Global) (*jsonDisp
 			}
 		}
 		d.leaves = append(d.leaves, leaf)
+	}
+	d.sel = fn
+	if ex, ok := stripIface(d.recv).(*ssa.Extract); ok && ex.Index == 0 {
+		if c, ok := ex.Tuple.(*ssa.Call); ok {
+			if h := c.Call.StaticCallee(); h != nil && w.InRepo(h) && h.Blocks != nil && h.Signature.Results().Len() == 2 {
+				// the helper's error must be nil where GetClaims() is invoked
+				var herr ssa.Value
+				for _, ref := range *c.Referrers() {
+					if e2, ok := ref.(*ssa.Extract); ok && e2.Index == 1 {
+						herr = e2
+					}
+				}
+				if herr == nil || !knownNilAt(herr, d.getClaims.Block()) {
+					return nil, "the selection helper's error is not checked before its result is used"
+				}
+				d.sel = h
+				for _, b := range h.Blocks {
+					ret, ok := b.Instrs[len(b.Instrs)-1].(*ssa.Return)
+					if !ok || !isNilConst(ret.Results[1]) && (definitelyNonNilErr(ret.Results[1]) || knownNonNilAt(ret.Results[1], b)) {
+						continue // failing return: its first result is not used
+					}
+					v := ret.Results[0]
+					walk(v, b, knownNonNilAt(v, b))
+				}
+				return d, ""
+			}
+		}
 	}
 	walk(d.recv, nil, knownNonNilAt(d.recv, d.getClaims.Block()))
 	return d, ""
@@ -652,19 +683,19 @@ func c07JSONDispatch(w *World, r *Recorder, rule string) {
 		}
 		switch l.kind {
 		case "nil":
-			ok := knownNonNilAt(d.recv, d.getClaims.Block())
+			ok := knownNonNilAt(d.recv, d.getClaims.Block()) && d.sel == fn
 			r.Check(ok, rule, key, w.InstrPos(d.getClaims), "a nil selection cannot reach GetClaims()", "GetClaims() can be invoked on a nil profile (no profile matched)")
 		case "iteration":
-			ok, why := iterationGuarded(fn, l, reg)
+			ok, why := iterationGuarded(d.sel, l, reg)
 			r.Check(ok, rule, fmt.Sprintf("%s/%d", key, i), pos, "selection inside the register loop only under member-present ∧ value == entry's GetName()", why)
 		case "default":
 			hasDefault = true
 			ok := l.pred != nil && foundPhi != nil && (knownNilAt(foundPhi, l.pred) || knownNilAt(d.recv, l.pred))
 			if !ok && l.pred != nil {
 				// the default may be assigned to a later φ; accept a guard on any φ that feeds the receiver
-				for _, b := range fn.Blocks {
+				for _, b := range d.sel.Blocks {
 					for _, in := range b.Instrs {
-						if phi, isPhi := in.(*ssa.Phi); isPhi && phi.Type() == d.recv.Type() && knownNilAt(phi, l.pred) {
+						if phi, isPhi := in.(*ssa.Phi); isPhi && types.Identical(phi.Type(), d.recv.Type()) && knownNilAt(phi, l.pred) {
 							ok = true
 						}
 					}
@@ -818,6 +849,25 @@ func checkC16(w *World, r *Recorder) propInfo {
 			pkey := fnKey(fn) + "#" + c08PathKey(p)
 			if nl == 1 {
 				r.Check(len(ups) == 0, "C16-N2", pkey, w.InstrPos(p.Ret), "failed registration leaves the register untouched", "a failing registration has already updated the register")
+				// … and every other piece of package-level state: anything a
+				// lookup could read must be as it was before the failed call
+				var gw []string
+				for _, ev := range p.St.events {
+					switch {
+					case ev.Kind == "store" && (strings.HasPrefix(ev.Loc, "G:") || strings.HasPrefix(ev.Loc, "M:g:")):
+						if _, isUp := regUpdateKey(ev, regName); !isUp {
+							gw = append(gw, ev.Loc+" at "+w.InstrPos(ev.Instr))
+						}
+					case ev.Kind == "call" && ev.Static != nil && w.InRepo(ev.Static):
+						if ef := w.Effects()[ev.Static]; ef != nil && (len(ef.WritesGlobals) > 0) {
+							for g := range ef.WritesGlobals {
+								gw = append(gw, globalName(g)+" via "+ev.Callee)
+							}
+						}
+					}
+				}
+				sort.Strings(gw)
+				r.Check(len(gw) == 0, "C16-N2", pkey+"#globals", w.InstrPos(p.Ret), "failed registration writes no package-level state", "a failing registration has already written package-level state ("+strings.Join(gw, "; ")+"): lookups that read it are changed by a registration that failed")
 				continue
 			}
 			why := ""
@@ -859,9 +909,9 @@ func checkC16(w *World, r *Recorder) propInfo {
 	}
 	c16Conflict(w, r, reg)
 	r.Floor("C16-N1", 2)
-	r.Floor("C16-N2", 3)
-	r.Floor("C16-N3", 5)
-	r.Floor("C16-N4", 2)
+	r.Floor("C16-N2", 1)
+	r.Floor("C16-N3", 3)
+	r.Floor("C16-N4", 1)
 	return info
 }
 
@@ -1000,7 +1050,7 @@ func c16Conflict(w *World, r *Recorder, reg *ssa.Global) {
 	// a second match (found != nil) either has the same name or returns an error:
 	// there is an If on GetName() != GetName() whose 'different' edge leads to a non-nil error return
 	ok := false
-	for _, b := range fn.Blocks {
+	for _, b := range d.sel.Blocks {
 		ifi, isIf := b.Instrs[len(b.Instrs)-1].(*ssa.If)
 		if !isIf {
 			continue
